@@ -3029,7 +3029,8 @@ impl Translator {
                     self.collect_captures_stmt(statement, captures, mono);
                 }
             }
-            ExprKind::Match(_, arms) => {
+            ExprKind::Match(scrutinee, arms) => {
+                self.collect_captures_expr(scrutinee, captures, mono);
                 for arm in arms {
                     self.collect_captures_stmt(&arm.stmt, captures, mono);
                 }
@@ -3077,14 +3078,30 @@ impl Translator {
                     self.collect_captures_expr(&arg.val, captures, mono);
                 }
             }
-            ExprKind::AnonymousFunction(..)
-            | ExprKind::MemberAccessLeadingDot(..)
+            // whatever a nested lambda or task captures from further out must be captured here as well,
+            // so that it is available when the nested closure / task is created
+            ExprKind::AnonymousFunction(args, _, body) => {
+                let func_ty = self.statics.solution_of_node(expr.node()).unwrap();
+                let overload_ty = if !func_ty.is_overloaded() {
+                    None
+                } else {
+                    Some(func_ty.subst(mono))
+                };
+                let (_, inner_captures, _) =
+                    self.calculate_args_captures_locals(&overload_ty, args, body, mono);
+                captures.extend(inner_captures);
+            }
+            ExprKind::TaskBlock(body) => {
+                let (_, inner_captures, _) =
+                    self.calculate_args_captures_locals(&None, &[], body, mono);
+                captures.extend(inner_captures);
+            }
+            ExprKind::MemberAccessLeadingDot(..)
             | ExprKind::Nil
             | ExprKind::Int(..)
             | ExprKind::Float(..)
             | ExprKind::Bool(..)
             | ExprKind::Str(..) => {}
-            ExprKind::TaskBlock(_) => unimplemented!(),
         }
     }
 
@@ -3111,7 +3128,8 @@ impl Translator {
                 StmtKind::Let(_, _, expr) => {
                     self.collect_captures_expr(expr, locals, mono);
                 }
-                StmtKind::Assign(_, _, expr) => {
+                StmtKind::Assign(lhs, _, expr) => {
+                    self.collect_captures_expr(lhs, locals, mono);
                     self.collect_captures_expr(expr, locals, mono);
                 }
                 StmtKind::Continue | StmtKind::Break => {}
